@@ -294,6 +294,7 @@ type stepResult struct {
 
 type stepCounter struct {
 	dir string
+	absCap float64 // absolute bound on the steps of one call (0 = none)
 }
 
 func newStepCounter() (*stepCounter, error) {
@@ -304,7 +305,7 @@ func newStepCounter() (*stepCounter, error) {
 	if err := coverage.WriteMetaDir(dir); err != nil {
 		return nil, fmt.Errorf("this binary is not coverage-instrumented: %w", err)
 	}
-	return &stepCounter{dir}, nil
+	return &stepCounter{dir: dir}, nil
 }
 
 // read decodes the counters accumulated since the last clear.
@@ -385,7 +386,11 @@ func (sc *stepCounter) measureUpTo(n int, prev int64, hangTimes float64, f func(
 			return
 		case <-tick.C:
 			s, e := sc.read()
-			if e == nil && float64(s) > hangTimes*quadBudget(n) {
+			limit := hangTimes * quadBudget(n)
+			if sc.absCap > 0 && limit > sc.absCap {
+				limit = sc.absCap
+			}
+			if e == nil && float64(s) > limit {
 				return s, true, time.Since(t0), nil
 			}
 			// relative criterion for scaled families: the previous (half as large) member took `prev` steps; a
@@ -448,6 +453,14 @@ func stepsWorker() {
 		ht := stepHangTimes
 		if t.HangTimes > 0 {
 			ht = t.HangTimes
+		}
+		// inputs of the random streams (no scaled family): the quadratic budget C*n^2 is calibrated on the worst
+		// legitimate family at a few hundred bytes and is very loose for inputs of kilobytes - a call that has executed
+		// 1.5e10 blocks (70 times the worst legitimate measurement) on such an input and is still running is not
+		// going to finish in any useful sense
+		sc.absCap = 4e10 // scaled families: twice the largest legitimate measurement of the thorough tier (nested parentheses at 8n)
+		if t.Family == "" {
+			sc.absCap = 1.5e10
 		}
 		steps, hang, wall, err := sc.measureUpTo(n, prevSteps[t.Family], ht, call)
 		res.Steps, res.Hang, res.WallMS = steps, hang, float64(wall)/1e6
